@@ -72,6 +72,18 @@ def work_rle(chunk):
                 if got != wantn:
                     col.violation(viol("C19:gantt-intervals-are-not-the-maximal-runs:%s" % kind, {"kind": kind, "log": [int(s) for s in seq], "margin": margin, "got": got, "expected": wantn}))
                 col.transitions.add(hash((key, repr(got))))
+                if length >= 2 and margin == 1.0:
+                    # the same object asked again after its log was edited in place (same length): no stale answer
+                    alt = alpha[(alpha.index(seq[length // 2]) + 1) % len(alpha)]
+                    o.state_record_list[length // 2] = alt
+                    seq2 = list(o.state_record_list)
+                    want2 = tuple([tuple(x) for x in runs(seq2, v_, margin)] for v_ in ({"task": (BaseTaskState.READY, BaseTaskState.WORKING), "component": (BaseComponentState.READY, BaseComponentState.WORKING),
+                                  "worker": (BaseWorkerState.FREE, BaseWorkerState.WORKING, BaseWorkerState.ABSENCE), "facility": (BaseFacilityState.FREE, BaseFacilityState.WORKING, BaseFacilityState.ABSENCE)}[kind]))
+                    got2 = tuple([tuple(x) for x in lst] for lst in o.get_time_list_for_gannt_chart(finish_margin=margin))
+                    col.checks["c19.requery-after-edit"] += 1
+                    if got2 != want2:
+                        col.violation(viol("C19:gantt-intervals-stale-after-in-place-log-edit:%s" % kind, {"kind": kind, "log": [int(s) for s in seq], "edited_log": [int(s) for s in seq2], "got": got2, "expected": want2}))
+                    o.state_record_list[length // 2] = seq[length // 2]
                 # chart rows (tasks, components directly; workers / facilities through team / workplace)
                 if margin in (0.5, 1.0) and length <= 5:
                     for unit in (datetime.timedelta(minutes=1), datetime.timedelta(days=1)):
